@@ -22,8 +22,11 @@
      `[][]uint` = `List (List Nat)`, `t[i][j-i] = op(i, j)` = nested `List.set`), against
      `Prime.lookup`, `Prime.newTable`, `Prime.addTable`, `Prime.mulTable`.
   3. the search loop of `primefield.(*Field).MultGenerator` (/repo/finitefield/primefield/primefield.go,
-     from `factors, _ := auxmath.Factorize(…)` to the end; labelled `continue`, `range` over the factor
-     slice, `Pow`/`IsOne` as function parameters) against `Prime.genSearch` / `Prime.multGenerator`.
+     from `var e *Element` to the end; labelled `continue`, `range` over the factor slice, `Pow`/`IsOne`
+     as function parameters; the slice `factors` bound in the skipped head by
+     `factors, _ := auxmath.Factorize(f.Card() - 1)` is a parameter, instantiated in the ties with the
+     translated `go_auxmath_Factorize loopFuel (wsub p 1)`) against `Prime.genSearch` /
+     `Prime.multGenerator`.
 
   The only hypotheses are word/int bounds (and, for 3, the existence of a generator, proved for primes);
   the sufficiency of `loopFuel = 2^64` for every translated loop is proved from them.
@@ -32,6 +35,8 @@
 import Algobra.Proofs.CodeTies5
 import Algobra.Proofs.CodeTies5Tab
 import Algobra.Proofs.CodeTies5Gen
+import Algobra.Props.CodeTies4
+import Mathlib.Tactic.NormNum.Prime
 
 namespace Algobra
 namespace CodeTies5
@@ -138,6 +143,73 @@ theorem lookup_mulTable_tie {p i j : Nat} (hp : p < 2 ^ 64) (hi : i < p) (hj : j
 
 example : (7 : Nat) < 2 ^ 64 ∧ (6 : Nat) < 7 ∧ (3 : Nat) < 7 := by decide
 example : go_primefield_table_lookup (Prime.mulTable 7) 2 6 3 = some 4 := by decide
+
+/-! ### 3. the search loop of `primefield.(*Field).MultGenerator` -/
+
+/-- generic form: whatever the observations `element`, `IsOne`, `Pow` (and the word standing for the nil
+    `*Element`) are, for `1 ≤ Card() ≤ 2^64` the translated search (run on the factor list computed by the translated
+    `auxmath.Factorize`; labelled `continue`, `range` over the factors) returns without panic
+    `element(g)` for the LEAST candidate `g ≥ 2` that passes the test for every prime factor.
+    (`loopFuel` suffices: `g < 2^64` candidates, at most 64 factors; `i + 1` never wraps.) -/
+theorem multGenerator_core_generic {card : Nat} (nilE : Nat) (el : Nat → Nat) (isOne : Nat → Bool)
+    (pw : Nat → Nat → Nat) (h1 : 1 ≤ card) (h2 : card ≤ 2 ^ 64) (g : Nat) (hg2 : 2 ≤ g)
+    (hg64 : g < 2 ^ 64)
+    (hgood : ((go_auxmath_Factorize loopFuel (wsub card 1)).1.all
+        fun r => !(isOne (pw (el g) ((card - 1) / r)))) = true)
+    (hleast : ∀ i, 2 ≤ i → i < g → ((go_auxmath_Factorize loopFuel (wsub card 1)).1.all
+        fun r => !(isOne (pw (el i) ((card - 1) / r)))) = false) :
+    go_primefield_Field_MultGenerator_core nilE el isOne card pw
+      (go_auxmath_Factorize loopFuel (wsub card 1)).1 = some (el g) :=
+  CodeTies5Proofs.Gen.multGenerator_core_generic nilE el isOne pw h1 h2 g hg2 hg64 hgood hleast
+
+/-- against the model's search `Prime.genSearch` (fuel `p`: candidates `2, …, p + 1`), with the
+    observations `element = Prime.element p`, `IsOne = (· == 1)`, `Pow = Prime.pow p`, `Card() = p`,
+    provided some candidate in that range passes the model's test -/
+theorem multGenerator_core_tie {p : Nat} (nilE : Nat) (hp1 : 1 ≤ p) (hp2 : p ≤ 2 ^ 64)
+    (hex : ∃ g, 2 ≤ g ∧ g < p + 2 ∧ g < 2 ^ 64 ∧
+      Prime.isGenerator p ((Auxmath.factorize 64 (p - 1)).map (·.1)) g = true) :
+    go_primefield_Field_MultGenerator_core nilE (Prime.element p) (fun x => x == 1) p (Prime.pow p)
+        (go_auxmath_Factorize loopFuel (wsub p 1)).1
+      = some (Prime.genSearch p ((Auxmath.factorize 64 (p - 1)).map (·.1)) 2 p) :=
+  CodeTies5Proofs.Gen.multGenerator_core_tie nilE hp1 hp2 hex
+
+example : (1 ≤ 7 ∧ 7 ≤ 2 ^ 64) ∧ ∃ g, 2 ≤ g ∧ g < 7 + 2 ∧ g < 2 ^ 64 ∧
+    Prime.isGenerator 7 ((Auxmath.factorize 64 (7 - 1)).map (·.1)) g = true :=
+  ⟨by decide, 3, by decide, by decide, by decide, by decide +kernel⟩
+
+/-- THE TIE: for an odd prime `p` with `p - 1 < 2^32` (Go's `Define` accepts exactly these; `p = 2` is
+    the case `MultGenerator` treats before the loop) the translated search returns the model's
+    `Prime.multGenerator p`, without panic, whatever the nil word is -/
+theorem multGenerator_tie {p : Nat} (nilE : Nat) (hp : p.Prime) (h32 : p - 1 < 2 ^ 32) (hp2 : p ≠ 2) :
+    go_primefield_Field_MultGenerator_core nilE (Prime.element p) (fun x => x == 1) p (Prime.pow p)
+        (go_auxmath_Factorize loopFuel (wsub p 1)).1
+      = some (Prime.multGenerator p) :=
+  CodeTies5Proofs.Gen.multGenerator_tie nilE hp h32 hp2
+
+/-- composed with the translated `Pow` core (CodeTies4) for the method `e.Pow(k)` -/
+theorem multGenerator_tie_composed {p : Nat} (nilE : Nat) (hp : p.Prime) (h32 : p - 1 < 2 ^ 32)
+    (hp2 : p ≠ 2) :
+    go_primefield_Field_MultGenerator_core nilE (Prime.element p) (fun x => x == 1) p
+        (fun a k => if k < 2 ^ 64 then
+            go_primefield_Element_Pow_core (Prime.element p) p a (Prime.mul p) (a == 0) k
+          else Prime.pow p a k)
+        (go_auxmath_Factorize loopFuel (wsub p 1)).1
+      = some (Prime.multGenerator p) := by
+  have hpw : (fun a k => if k < 2 ^ 64 then
+      go_primefield_Element_Pow_core (Prime.element p) p a (Prime.mul p) (a == 0) k
+      else Prime.pow p a k) = Prime.pow p := by
+    funext a k
+    by_cases hk : k < 2 ^ 64
+    · rw [if_pos hk]
+      exact CodeTies4.prime_pow_tie (by have := hp.two_le; omega) (by omega) hk
+    · rw [if_neg hk]
+  rw [hpw]
+  exact multGenerator_tie nilE hp h32 hp2
+
+example : Nat.Prime 7 ∧ 7 - 1 < 2 ^ 32 ∧ 7 ≠ 2 := ⟨by norm_num, by decide, by decide⟩
+example : go_primefield_Field_MultGenerator_core 0 (Prime.element 7) (fun x => x == 1) 7 (Prime.pow 7)
+    (go_auxmath_Factorize loopFuel (wsub 7 1)).1 = some 3 := by
+  rw [multGenerator_tie 0 (by norm_num) (by decide) (by decide)]; decide +kernel
 
 end CodeTies5
 end Algobra
